@@ -55,6 +55,9 @@ func (w *lifeWorld) sym(t string) string {
 		return fn.Pkg + ".(*S)." + strings.ToUpper(t)
 	case "uefunc":
 		return fn.Pkg + "." + t
+	case "generic":
+		// the shape body behind the instantiation's wrapper is what goom patches
+		return fn.Pkg + ".Gen" + strings.ToUpper(t) + "[go.shape.int]"
 	default:
 		return fn.Pkg + ".(*S)." + t
 	}
@@ -98,6 +101,8 @@ func (w *lifeWorld) lookupHandle(b, t string) mocker.ExportedMocker {
 	switch w.kind {
 	case "func":
 		return bl.Func(map[string]interface{}{"f": fn.F, "g": fn.G, "h": fn.H}[t])
+	case "generic":
+		return bl.Func(map[string]interface{}{"f": fn.GenF[int], "g": fn.GenG[int], "h": fn.GenH[int]}[t])
 	case "method":
 		return bl.Struct(&fn.S{}).Method(strings.ToUpper(t))
 	case "uefunc":
@@ -154,6 +159,9 @@ var cbnum = map[string]int{"c1": 1, "c2": 2}
 // callbacks: cb c -> 5000+100*c+a ; cbo -> 3000 + origin(a)
 func (w *lifeWorld) callback(c string) interface{} {
 	n := 5000 + 100*cbnum[c]
+	if w.kind == "generic" {
+		return func() int { return n }
+	}
 	if w.isMethod() {
 		return func(s *fn.S, a int) int { return n + a }
 	}
@@ -288,6 +296,12 @@ func (w *lifeWorld) call(t string, a int) (res int) {
 	switch w.kind {
 	case "func":
 		return map[string]func(int) int{"f": fn.F, "g": fn.G, "h": fn.H}[t](a)
+	case "generic":
+		// (the spec's call argument is always 0 in this family; the int64 instantiations are the bystanders)
+		if fn.GenF[int64]() != 1000 || fn.GenG[int64]() != 2000 || fn.GenH[int64]() != 3000 {
+			return -1 // an instantiation of a different shape was affected
+		}
+		return map[string]func() int{"f": fn.GenF[int], "g": fn.GenG[int], "h": fn.GenH[int]}[t]()
 	case "method":
 		s := &fn.S{Tag: 7}
 		switch t {
@@ -427,4 +441,5 @@ func init() {
 		return []World{&lifeWorld{kind: "func"}, &lifeWorld{kind: "method"}, &lifeWorld{kind: "uefunc"}, &lifeWorld{kind: "uemethod"}}
 	}
 	worlds["life-func"] = func() []World { return []World{&lifeWorld{kind: "func"}} }
+	worlds["life-generic"] = func() []World { return []World{&lifeWorld{kind: "generic"}} }
 }
